@@ -5,83 +5,37 @@ From PV Require Import Cache.
 From Coq Require Import Lia.
 Open Scope string_scope.
 
-(** * The key function *)
+(** * The key function: the (parent-or-None, name) pair *)
 
-Lemma contains_app_plus a b : contains_char plus (a ++ "+" ++ b) = true.
-Proof. induction a as [|c a IH]; simpl in *; [reflexivity|]. rewrite IH. apply orb_true_r. Qed.
-Lemma join_inj_names p p' n n' :
-  contains_char plus n = false -> contains_char plus n' = false ->
-  p ++ "+" ++ n = p' ++ "+" ++ n' -> p = p' /\ n = n'.
+Lemma key_eqb_spec (a b : key) : reflect (a = b) (key_eqb a b).
 Proof.
-  revert p'. induction p as [|c p IH]; intros [|c' p'] Hn Hn' H; simpl in H.
-  - inversion H. auto.
-  - inversion H; subst. pose proof (contains_app_plus p' n') as E.
-    simpl in *. congruence.
-  - inversion H; subst. pose proof (contains_app_plus p n) as E.
-    simpl in *. congruence.
-  - inversion H; subst. destruct (IH p' Hn Hn' H2) as [-> ->]. auto.
-Qed.
-Lemma join_inj_parents p p' n n' :
-  contains_char plus p = false -> contains_char plus p' = false ->
-  p ++ "+" ++ n = p' ++ "+" ++ n' -> p = p' /\ n = n'.
-Proof.
-  revert p'. induction p as [|c p IH]; intros [|c' p'] Hp Hp' H; simpl in H.
-  - inversion H. auto.
-  - inversion H; subst. simpl in Hp'. discriminate.
-  - inversion H; subst. simpl in Hp. discriminate.
-  - inversion H; subst. cbn [contains_char] in Hp, Hp'.
-    apply orb_false_iff in Hp. apply orb_false_iff in Hp'.
-    destruct (IH p' (proj2 Hp) (proj2 Hp') H2) as [-> ->]. auto.
+  destruct a as [pa na], b as [pb nb]. unfold key_eqb, req_eqb. cbn [fst snd].
+  destruct pa as [x|], pb as [y|]; cbn;
+    try (destruct (String.eqb_spec x y)); try (destruct (String.eqb_spec na nb));
+    cbn; constructor; congruence.
 Qed.
 
-Definition key_inj_on (P : req -> bool) : Prop :=
-  forall r r', P r = true -> P r' = true -> key_of r = key_of r' -> norm_req r = norm_req r'.
+Lemma key_eqb_refl k : key_eqb k k = true.
+Proof. destruct (key_eqb_spec k k); congruence. Qed.
 
-Lemma key_nonempty c s n : pipeline_key (Some (String c s)) n = String c s ++ "+" ++ n.
+Lemma key_eqb_eq a b : key_eqb a b = true -> a = b.
+Proof. destruct (key_eqb_spec a b); congruence. Qed.
+
+Lemma key_eqb_neq a b : a <> b -> key_eqb a b = false.
+Proof. destruct (key_eqb_spec a b); congruence. Qed.
+
+Lemma key_eqb_sym a b : key_eqb a b = key_eqb b a.
+Proof. destruct (key_eqb_spec a b), (key_eqb_spec b a); congruence. Qed.
+
+(** the key IS the normalised request *)
+Lemma key_is_norm_req r : key_of r = norm_req r.
 Proof. reflexivity. Qed.
-Opaque append.
-Lemma key_inj_names : key_inj_on name_plus_free.
-Proof.
-  intros [p n] [p' n']. unfold name_plus_free, key_of, norm_req. cbn [fst snd].
-  intros Hn Hn' H. apply negb_true_iff in Hn. apply negb_true_iff in Hn'.
-  destruct p as [[|c s]|], p' as [[|c' s']|]; cbn [pipeline_key truthy] in *; subst; try reflexivity.
-  - pose proof (contains_app_plus (String c' s') n') as E. congruence.
-  - pose proof (contains_app_plus (String c s) n) as E. congruence.
-  - destruct (join_inj_names _ _ _ _ Hn Hn' H) as [E ->]. rewrite E. reflexivity.
-  - pose proof (contains_app_plus (String c s) n) as E. congruence.
-  - pose proof (contains_app_plus (String c' s') n') as E. congruence.
-Qed.
 
-Lemma key_inj_parents : key_inj_on parent_plus_free.
-Proof.
-  intros [p n] [p' n']. unfold parent_plus_free, key_of, norm_req. cbn [fst snd].
-  intros Hp Hp' H.
-  destruct p as [[|c s]|], p' as [[|c' s']|]; try discriminate.
-  apply negb_true_iff in Hp. apply negb_true_iff in Hp'.
-  cbn [pipeline_key truthy] in *.
-  destruct (join_inj_parents _ _ _ _ Hp Hp' H) as [E ->]. rewrite E. reflexivity.
-Qed.
-Transparent append.
+Lemma key_injective r r' : key_of r = key_of r' -> norm_req r = norm_req r'.
+Proof. intros H. exact H. Qed.
 
-Lemma key_injective_partial r r' :
-  (name_plus_free r = true /\ name_plus_free r' = true) \/
-  (parent_plus_free r = true /\ parent_plus_free r' = true) ->
-  key_of r = key_of r' -> norm_req r = norm_req r'.
-Proof.
-  intros [[A B]|[A B]] H; [apply key_inj_names|apply key_inj_parents]; assumption.
-Qed.
-
-Lemma key_injective_refuted :
-  exists r r', norm_req r <> norm_req r' /\ key_of r = key_of r'.
-Proof.
-  exists (Some "/x", "a+b"), (Some "/x+a", "b"). split; [discriminate|reflexivity].
-Qed.
-
-Lemma key_injective_refuted_noparent :
-  exists r r', norm_req r <> norm_req r' /\ key_of r = key_of r'.
-Proof.
-  exists (None, "q+r"), (Some "q", "r"). split; [discriminate|reflexivity].
-Qed.
+Lemma key_complete r r' : norm_req r = norm_req r' -> key_of r = key_of r'.
+Proof. intros H. exact H. Qed.
 
 (** * Generic plumbing *)
 
@@ -192,12 +146,12 @@ Proof.
   open_step t st Hth; try exact H; try rewrite Hth in *; cbn in Bt;
   try specialize (Bt _ _ _ eq_refl);
   intros k o'; cbn [log store since_clear is_clear got_for]; try exact (H k o').
-  - destruct (String.eqb_spec (key_of r) k) as [<-|Hk]; [|exact (H k o')].
+  - destruct (key_eqb_spec (key_of r) k) as [<-|Hk]; [|exact (H k o')].
     intros [<-|Hi]; [assumption|exact (H _ _ Hi)].
-  - unfold supd. destruct (String.eqb_spec (key_of r) k) as [<-|Hk].
-    + rewrite String.eqb_refl. intros [<-|Hi]; [reflexivity|].
+  - unfold supd. destruct (key_eqb_spec (key_of r) k) as [<-|Hk].
+    + rewrite key_eqb_refl. intros [<-|Hi]; [reflexivity|].
       apply H in Hi. congruence.
-    + apply String.eqb_neq in Hk. rewrite String.eqb_sym, Hk. exact (H k o').
+    + apply key_eqb_neq in Hk. rewrite key_eqb_sym, Hk. exact (H k o').
   - intros [].
 Qed.
 
@@ -206,7 +160,7 @@ Qed.
 Definition pend_th (th : thread) (k : key) : list obj :=
   match tpc th with
   | PStore => match prog th, reg th with
-              | OGet r _ :: _, Some o => if String.eqb (key_of r) k then [o] else []
+              | OGet r _ :: _, Some o => if key_eqb (key_of r) k then [o] else []
               | _, _ => []
               end
   | _ => []
@@ -244,11 +198,11 @@ Proof.
             rewrite upd_other by assumption; exact Hk).
   all: try (match goal with E : lock _ = None |- _ => rewrite E in Hk end;
             rewrite upd_same; cbn [pend_th tpc]; exact Hk).
-  - destruct (String.eqb_spec (key_of r) k) as [E|Hne]; [subst k|exact Hk].
+  - destruct (key_eqb_spec (key_of r) k) as [E|Hne]; [subst k|exact Hk].
     rewrite Bt in *. rewrite Hk. reflexivity.
-  - unfold supd. destruct (String.eqb_spec (key_of r) k) as [E|Hne]; [subst k|].
-    + rewrite String.eqb_refl in *. rewrite Bt in Hk. exact Hk.
-    + apply String.eqb_neq in Hne. rewrite String.eqb_sym, Hne. exact Hk.
+  - unfold supd. destruct (key_eqb_spec (key_of r) k) as [E|Hne]; [subst k|].
+    + rewrite key_eqb_refl in *. rewrite Bt in Hk. exact Hk.
+    + apply key_eqb_neq in Hne. rewrite key_eqb_sym, Hne. exact Hk.
   - reflexivity.
 Qed.
 
@@ -349,48 +303,13 @@ Proof.
     apply made_cons. apply H1. exact Heqo.
   - intros E1 E2. injection E1 as <- _ _. injection E2 as <-.
     exists t, r. split; [left; reflexivity|reflexivity].
-  - unfold supd in Hs. destruct (String.eqb_spec k' (key_of r)) as [->|Hne].
+  - unfold supd in Hs. destruct (key_eqb_spec k' (key_of r)) as [->|Hne].
     + injection Hs as <-. apply (Ht _ _ _ _ eq_refl eq_refl).
     + apply H1. exact Hs.
   - injection Hin as <- <- <-. apply (Ht _ _ _ _ eq_refl eq_refl).
   - intros E1 E2. injection E1 as <- _ _. injection E2 as <-.
     exists t, r. split; [left; reflexivity|reflexivity].
   - discriminate.
-Qed.
-
-(** * P. every request seen in the log comes from the programs *)
-Definition op_sat (P : req -> bool) (o : op) : Prop :=
-  match o with OGet r _ => P r = true | OClear => True end.
-
-Definition invP (P : req -> bool) (st : state) : Prop :=
-  (forall t, Forall (op_sat P) (prog (threads st t))) /\
-  (forall t r o, In (ECreated t r o) (log st) -> P r = true) /\
-  (forall t r o, In (ERet t r o) (log st) -> P r = true).
-
-Lemma invP_init P nc progs :
-  Forall (Forall (op_sat P)) progs -> invP P (init nc progs).
-Proof.
-  intros H. split; [|split; intros ? ? ? []].
-  intros t. cbn. rewrite Forall_forall in H.
-  destruct (Nat.lt_ge_cases t (length progs)) as [L|L].
-  - apply H. apply nth_In. exact L.
-  - rewrite nth_overflow by exact L. constructor.
-Qed.
-
-Lemma invP_step P t st : invP P st -> invP P (step t st).
-Proof.
-  intros (H1 & H2 & H3). pose proof (H1 t) as Ht.
-  open_step t st Hth; try (repeat split; assumption); try rewrite Hth in *; cbn in Ht;
-  inversion Ht as [|? ? Hop Hrest]; subst; cbn in Hop;
-  (split; [|split];
-  [ intros t'; cbn [threads]; split_thread t' t Hne; cbn [prog]; auto
-  | intros t' r' o'; cbn [log]; intros Hin;
-    try (destruct Hin as [Hin|Hin]; [try discriminate|]);
-    try (eapply H2; exact Hin); try (injection Hin as <- <- <-; exact Hop)
-  | intros t' r' o'; cbn [log]; intros Hin;
-    try (destruct Hin as [Hin|Hin]; [try discriminate|]);
-    try (eapply H3; exact Hin); try (injection Hin as <- <- <-; exact Hop) ]).
-  all: rewrite Hth; exact Ht.
 Qed.
 
 (** * G. outcomes: a look-up returns iff the creator for its key succeeds (both modes),
@@ -444,7 +363,7 @@ Proof.
     try (destruct Hin as [Hin|Hin]; [try discriminate|]);
     try (eapply H5; exact Hin); try (injection Hin as <- <-; assumption) ]).
   all: try (intros; exact I).
-  - unfold supd in Hs. destruct (String.eqb_spec k' (key_of r)) as [->|Hne];
+  - unfold supd in Hs. destruct (key_eqb_spec k' (key_of r)) as [->|Hne];
       [exact Gt|eapply H2; exact Hs].
   - discriminate.
 Qed.
@@ -550,12 +469,6 @@ Proof. unfold reach. apply (run_inv invD); [apply invD_step|apply invD_init]. Qe
 Lemma reach_H nc progs sched : invH (reach nc progs sched).
 Proof. unfold reach. apply (run_inv invH); [apply invH_step|apply invH_init]. Qed.
 
-Lemma reach_P P nc progs sched :
-  Forall (Forall (op_sat P)) progs -> invP P (reach nc progs sched).
-Proof.
-  intros H. unfold reach. apply (run_inv (invP P)); [apply invP_step|apply invP_init, H].
-Qed.
-
 Lemma reach_G okf nc progs sched :
   Forall (Forall (fun o => op_ok okf o = true)) progs -> invG okf (reach nc progs sched).
 Proof.
@@ -592,7 +505,7 @@ Proof.
   unfold pending. destruct (lock _); [|cbn; lia].
   unfold pend_th. destruct (tpc _); cbn; try lia.
   destruct (prog _) as [|[r ok|] ?]; cbn; try lia.
-  destruct (reg _); cbn; try lia. destruct (String.eqb _ _); cbn; lia.
+  destruct (reg _); cbn; try lia. destruct (key_eqb _ _); cbn; lia.
 Qed.
 
 Lemma stored_is_the_created_one progs sched k o :
@@ -611,7 +524,7 @@ Proof.
   specialize (B t). unfold creating in H.
   destruct (threads st t) as [[|[r ok|] rest] p rg]; cbn in *; try discriminate.
   specialize (B _ _ _ eq_refl).
-  destruct p; try discriminate; apply String.eqb_eq in H; subst k; exact B.
+  destruct p; try discriminate; apply key_eqb_eq in H; subst k; exact B.
 Qed.
 
 Lemma same_object nc progs sched k o :
@@ -723,33 +636,21 @@ Lemma returned_object_made_for_key nc progs sched t r o :
   exists t' r', In (ECreated t' r' o) (log st) /\ key_of r' = key_of r.
 Proof. intros st. destruct (reach_H nc progs sched) as (_ & _ & H). apply H. Qed.
 
-Lemma no_cross_talk_partial P nc progs sched t r o :
-  key_inj_on P -> Forall (Forall (op_sat P)) progs ->
+Lemma no_cross_talk nc progs sched t r o :
   let st := reach nc progs sched in
   In (ERet t r o) (log st) ->
   exists t' r', In (ECreated t' r' o) (log st) /\ norm_req r' = norm_req r.
 Proof.
-  intros Hinj HP st Hin.
+  intros st Hin.
   destruct (returned_object_made_for_key nc progs sched t r o Hin) as (t' & r' & Hc & Hk).
-  destruct (reach_P P nc progs sched HP) as (_ & Pc & Pr).
-  exists t', r'. split; [exact Hc|]. apply Hinj; [eapply Pc; exact Hc|eapply Pr; exact Hin|exact Hk].
+  exists t', r'. split; [exact Hc|apply key_injective; exact Hk].
 Qed.
 
+(** the requests that collided under the old joined-string key *)
 Definition collide_progs : list (list op) :=
-  [[OGet (Some "/x", "a+b") true; OGet (Some "/x+a", "b") true]].
-Definition collide_sched : list tid := repeat 0 15.
-
-Lemma no_cross_talk_refuted :
-  exists progs sched t r o,
-    let st := reach false progs sched in
-    In (ERet t r o) (log st) /\
-    forall t' r', In (ECreated t' r' o) (log st) -> norm_req r' <> norm_req r.
-Proof.
-  exists collide_progs, collide_sched, 0, (Some "/x+a", "b"), 0%Z.
-  vm_compute. split; [left; reflexivity|].
-  intros t' r' H. repeat (destruct H as [H|H]; [try discriminate|]); [|contradiction].
-  injection H as <- <-. discriminate.
-Qed.
+  [[OGet (Some "/x", "a+b") true; OGet (Some "/x+a", "b") true;
+    OGet (None, "q+r") true; OGet (Some "q", "r") true]].
+Definition collide_sched : list tid := repeat 0 40.
 
 (** * add_sys_path: every directory is appended at most once, and never when already there *)
 
